@@ -64,15 +64,17 @@ cycle2:
   }
 ;
 
+/* The two lists grow to the right as they are read (left recursion): building them from the right copied the
+   rest of the list once per element and kept every copy alive on the parser's value stack. */
 cycle3:
   /* empty */ { $$ = []string{} }
-| ',' string cycle3 { $$ = append([]string{$2}, $3...) }
+| cycle3 ',' string { $$ = append($1, $3) }
 ;
 
 exprs: expr expr2 { $$ = append([]Expression{&expression{$1}}, $2...) } ;
 expr2:
   /* empty */    { $$ = []Expression{} }
-| ',' expr expr2 { $$ = append([]Expression{&expression{$2}}, $3...) }
+| expr2 ',' expr { $$ = append($1, &expression{$3}) }
 ;
 
 string: LITERAL {
